@@ -186,43 +186,46 @@ def get_batch_ob(dim, cartesian, with_border, flag=None):
         ex.contracts["CubicMeshPDEStatio.border_batch"] = lambda ex_, fv, a, k, pc: [((fv.self_val, dx), pc)]
         ex.contracts["CubicMeshPDENonStatio.temporal_batch"] = lambda ex_, fv, a, k, pc: [((fv.self_val, t), pc)]
         outs = ex.call_method(rec, "get_batch")
-        (o,) = outs
-        new, batch = o.value
-        tx, tdx = batch.fields["times_x_inside_batch"], batch.fields["times_x_border_batch"]
-        pre = [bt >= 1, bx >= 1, bb >= 1] + ([] if cartesian else [bt == bx] + ([bt == bb] if dim > 1 else []))
-        idx = [i_ >= 0, i_ < bt, j_ >= 0, c_ >= 0, c_ < 1 + dim, f_ >= 0, f_ < F]
+        if any(o.kind != "return" for o in outs):
+            bad_ = [o for o in outs if o.kind != "return"][0]
+            raise pyvc.PyRaise(str(bad_.value), "get_batch raises on a path the precondition allows") if bad_.kind == "raise" else pyvc.Unsupported("unexpected outcome")
         goals = {}
-        if cartesian:
-            goals["interior_shape"] = z3.And(zint(tx.shape[0]) == bt * bx, zint(tx.shape[1]) == 1 + dim)
-            goals["interior_rows"] = z3.Implies(j_ < bx, tx.elem(i_ * bx + j_, c_) == z3.If(c_ < 1, t.elem(i_), x.elem(j_, c_ - 1)))
-        else:
-            goals["interior_shape"] = z3.And(zint(tx.shape[0]) == bt, zint(tx.shape[1]) == 1 + dim)
-            goals["interior_rows"] = tx.elem(i_, c_) == z3.If(c_ < 1, t.elem(i_), x.elem(i_, c_ - 1))
-        if with_border:
-            nb_rows = 1 if dim == 1 else bb
-            if cartesian or dim == 1:
-                goals["border_shape"] = z3.And(zint(tdx.shape[0]) == bt * nb_rows, zint(tdx.shape[1]) == 1 + dim, zint(tdx.shape[2]) == F)
-                goals["border_rows"] = z3.Implies(j_ < nb_rows, tdx.elem(i_ * nb_rows + j_, c_, f_) ==
-                                                  z3.If(c_ < 1, t.elem(i_), dx.elem(j_, c_ - 1, f_)))
+        for o in outs:          # every path the code may take (a branch on a symbolic size forks) satisfies the postcondition
+            new, batch = o.value
+            tx, tdx = batch.fields["times_x_inside_batch"], batch.fields["times_x_border_batch"]
+            pre = [bt >= 1, bx >= 1, bb >= 1] + ([] if cartesian else [bt == bx] + ([bt == bb] if dim > 1 else []))
+            idx = [i_ >= 0, i_ < bt, j_ >= 0, c_ >= 0, c_ < 1 + dim, f_ >= 0, f_ < F]
+            if cartesian:
+                goals["interior_shape"] = z3.And(zint(tx.shape[0]) == bt * bx, zint(tx.shape[1]) == 1 + dim)
+                goals["interior_rows"] = z3.Implies(j_ < bx, tx.elem(i_ * bx + j_, c_) == z3.If(c_ < 1, t.elem(i_), x.elem(j_, c_ - 1)))
             else:
-                goals["border_shape"] = z3.And(zint(tdx.shape[0]) == bt, zint(tdx.shape[1]) == 1 + dim, zint(tdx.shape[2]) == F)
-                goals["border_rows"] = tdx.elem(i_, c_, f_) == z3.If(c_ < 1, t.elem(i_), dx.elem(i_, c_ - 1, f_))
-        else:
-            if tdx is not None:
-                return dict(status="violated", failure="value", detail="border batch returned although no border was requested",
-                            replay=dict(native_disagrees=False))
-        hints = [(i_ * bx + j_) / bx == i_, (i_ * bx + j_) % bx == j_, (i_ * bb + j_) / bb == i_, (i_ * bb + j_) % bb == j_]
-        for nm, g in goals.items():
-            st, model = prove(g, pre + idx + list(o.pc), timeout_ms=20000)
-            if st == "unknown":
-                hh = [z3.Implies(z3.And(j_ < bx), z3.And(hints[0], hints[1])), z3.Implies(z3.And(j_ < bb), z3.And(hints[2], hints[3]))]
-                st, model = prove(g, pre + idx + list(o.pc) + hh, timeout_ms=20000)
-            if st != "unsat":
-                return fail(name + "." + nm, st, model)
-        for nm, pc_, g in ex.obligations:
-            st, model = prove(g, pre + list(pc_), timeout_ms=10000)
-            if st != "unsat":
-                return fail(name + ".side:" + nm, st, model)
+                goals["interior_shape"] = z3.And(zint(tx.shape[0]) == bt, zint(tx.shape[1]) == 1 + dim)
+                goals["interior_rows"] = tx.elem(i_, c_) == z3.If(c_ < 1, t.elem(i_), x.elem(i_, c_ - 1))
+            if with_border:
+                nb_rows = 1 if dim == 1 else bb
+                if cartesian or dim == 1:
+                    goals["border_shape"] = z3.And(zint(tdx.shape[0]) == bt * nb_rows, zint(tdx.shape[1]) == 1 + dim, zint(tdx.shape[2]) == F)
+                    goals["border_rows"] = z3.Implies(j_ < nb_rows, tdx.elem(i_ * nb_rows + j_, c_, f_) ==
+                                                      z3.If(c_ < 1, t.elem(i_), dx.elem(j_, c_ - 1, f_)))
+                else:
+                    goals["border_shape"] = z3.And(zint(tdx.shape[0]) == bt, zint(tdx.shape[1]) == 1 + dim, zint(tdx.shape[2]) == F)
+                    goals["border_rows"] = tdx.elem(i_, c_, f_) == z3.If(c_ < 1, t.elem(i_), dx.elem(i_, c_ - 1, f_))
+            else:
+                if tdx is not None:
+                    return dict(status="violated", failure="value", detail="border batch returned although no border was requested",
+                                replay=dict(native_disagrees=False))
+            hints = [(i_ * bx + j_) / bx == i_, (i_ * bx + j_) % bx == j_, (i_ * bb + j_) / bb == i_, (i_ * bb + j_) % bb == j_]
+            for nm, g in goals.items():
+                st, model = prove(g, pre + idx + list(o.pc), timeout_ms=20000)
+                if st == "unknown":
+                    hh = [z3.Implies(z3.And(j_ < bx), z3.And(hints[0], hints[1])), z3.Implies(z3.And(j_ < bb), z3.And(hints[2], hints[3]))]
+                    st, model = prove(g, pre + idx + list(o.pc) + hh, timeout_ms=20000)
+                if st != "unsat":
+                    return fail(name + "." + nm, st, model)
+            for nm, pc_, g in ex.obligations:
+                st, model = prove(g, pre + list(pc_), timeout_ms=10000)
+                if st != "unsat":
+                    return fail(name + ".side:" + nm, st, model)
         return dict(status="discharged", backend="pyvc+z3", solver_s=time.time() - t0,
                     sample=f"{ex.stmts_visited} statements executed; goals {sorted(goals)}")
     return FnObligation(name, run, [DG + "CubicMeshPDENonStatio.get_batch", DG + "make_cartesian_product"],
